@@ -21,11 +21,12 @@ import coqlit as L
 ID = "C19"
 COQ_PROPERTY_FILE = "Properties/C19.v"
 COQ_DEPS = ["Common/ListX.v", "Common/ObsHash.v", "Generated/Tables.v", "Model/Copy.v", "Proofs/CopyProofs.v",
-            "Proofs/CopyInvProofs.v", "Proofs/CopyFreshProofs.v"]
+            "Proofs/CopyInvProofs.v", "Proofs/CopyFreshProofs.v", "Proofs/CopyBridge.v"]
 COQ_IMPORTS = "From Mesa Require Import Model.Copy."
 COQ_CASE_TYPE = "case"
 COQ_RUN = "run_case"
-TABLE_CONSTRUCTS = []
+TABLE_CONSTRUCTS = ["c19_cell_slots", "c19_cell_getstate", "c19_gridcell_pickle", "c19_gridcell_unpickle", "c19_grid_getstate",
+                    "c19_grid_setstate_classes", "c19_grid_setstate_descr", "c19_dspace_setstate", "c19_agentset_state"]
 ENUM_ALWAYS = False
 
 E_FULL, E_NODIR, E_EXISTS, E_MISSING, E_KEY = 1, 2, 3, 4, 5
@@ -56,6 +57,9 @@ TRUSTED_BASE = [
     "Coq 8.16.1 kernel (coqc); vm_compute used for the non-vacuity examples and for evaluating the model in the correspondence",
     "no axioms: Print Assumptions reports 'Closed under the global context' for every C19 theorem",
     "harness/props/C19.py driver+observer, twin builder and Gallina literal printer (T2, differential testing, not a proof)",
+    "harness/tables/c19_copy_code.py + harness/pyexpr.py (T1, code level): translate Cell.__slots__/__getstate__, "
+    "pickle_gridcell/unpickle_gridcell, Grid.__getstate__/__setstate__ loops, AgentSet.__getstate__/__setstate__/_update "
+    "into gen_c19_* definitions on every run; Proofs/CopyBridge.v proves copy_space/copy_set are these pieces",
     "Model/Copy.v is a hand transcription of Cell.__getstate__, pickle_gridcell/unpickle_gridcell, Grid.__setstate__, "
     "DiscreteSpace.__setstate__, AgentSet.__getstate__/__setstate__, Cell.add_agent/remove_agent, HasCell.cell setter, "
     "PropertyDescriptor, add/remove_property_layer; CPython attribute lookup (data descriptor on the class before the "
